@@ -576,12 +576,18 @@ func (lb *LoadBalancer) IsBackendHealthy(backend *Backend) bool {
 	return isHealthy
 }
 
-// healthFlag returns the cached health flag under the backend's lock. Strategies use it instead of
-// reading IsHealthy directly, which races with the health checks writing it.
-func (backend *Backend) healthFlag() bool {
+// eligible reports whether the backend may be offered to a request: it is flagged healthy, or it was
+// ejected and its unhealthy window has elapsed (IsBackendHealthy refreshes the flag once the backend
+// is picked). Strategies use it instead of reading IsHealthy directly: a plain read races with the
+// health checks, and the bare flag keeps a recovered backend out of rotation for ever when nothing
+// else (an active probe, the fallback scan) happens to look at it.
+func (backend *Backend) eligible() bool {
 	backend.Mutex.RLock()
 	defer backend.Mutex.RUnlock()
-	return backend.IsHealthy
+	if backend.IsHealthy {
+		return true
+	}
+	return !backend.UnhealthyUntil.IsZero() && time.Now().After(backend.UnhealthyUntil)
 }
 
 // IncrementConnections increments the active connection count for a backend
